@@ -350,6 +350,46 @@ fn gen(rng: &mut Rng, tier: Tier, emit: &mut dyn FnMut(Vec<Tok>)) {
                 }
             }
         }
+        // a mark-range over >= 3 pages whose END pages are already dirty while an interior page is clean (within
+        // one word, and across the word boundary when there are two words): every page of the range must be
+        // marked all the same.  The end pages are dirtied (i) by a sequential prefix of the marking thread,
+        // (ii) before the threads start, (iii) by the OTHER thread - under ALL interleavings, never thinned out.
+        let mut spans: Vec<(usize, usize)> = vec![(2, 4), (1, 4)];
+        if size > 64 {
+            spans.extend([(62, (size - 1).min(65)), (63, (size - 1).min(65)), (61, 64)]);
+        }
+        for &(f, l) in &spans {
+            if l < f + 2 || l >= size {
+                continue;
+            }
+            let range = vec![0, f * ps, (l - f + 1) * ps];
+            let mut sets: Vec<(Vec<usize>, Vec<Vec<Vec<usize>>>)> = Vec::new();
+            // (i) sequential prefix on the marking thread, then harvest; the other thread looks on / harvests
+            for other in [vec![vec![7, f + 1]], vec![vec![4]], vec![vec![2, f + 1]]] {
+                sets.push((init.clone(), vec![vec![vec![2, f], vec![2, l], range.clone(), vec![4]], other.clone()]));
+                sets.push((init.clone(), vec![vec![vec![2, f], vec![2, l], range.clone()], other]));
+            }
+            // (ii) end pages dirty before the threads start
+            let mut init2 = init.clone();
+            init2.extend([f, l]);
+            sets.push((init2.clone(), vec![vec![range.clone()], vec![vec![4]]]));
+            sets.push((init2.clone(), vec![vec![range.clone(), vec![4]], vec![vec![7, f + 1]]]));
+            sets.push((init2, vec![vec![range.clone()], vec![vec![7, l - 1], vec![7, f + 1]]]));
+            // (iii) end pages dirtied by the other thread
+            sets.push((init.clone(), vec![vec![range.clone()], vec![vec![2, f], vec![2, l]]]));
+            sets.push((init.clone(), vec![vec![range.clone(), vec![4]], vec![vec![2, f], vec![2, l]]]));
+            sets.push((init.clone(), vec![vec![range.clone()], vec![vec![2, l], vec![2, f], vec![4]]]));
+            sets.push((init.clone(), vec![vec![range.clone(), vec![7, f + 1]], vec![vec![0, l * ps, 1], vec![0, f * ps, ps]]]));
+            for (ini, progs) in &sets {
+                let counts: Vec<usize> = progs.iter().map(|p| p.iter().map(|o| nprims(bytes, ps, o)).sum()).collect();
+                let mut all = Vec::new();
+                interleavings(&counts, &mut Vec::new(), &mut counts.clone(), &mut all);
+                assert!(all.len() <= 400);
+                for s in &all {
+                    emit(case_tokens(bytes, ps, ini, s, progs));
+                }
+            }
+        }
         // three threads, sampled schedules; also schedules that are too short / name finished or
         // non-existent threads (the fallback rules of the scheduler)
         let n3 = if tier == Tier::Quick { 150 } else { 5000 };
